@@ -172,7 +172,7 @@ Proof.
     apply mapM_ext_in. intros se Hse. destruct (Hhd se Hse) as [E _]. rewrite E.
     apply flag_correct. apply H. exact Hse.
   - (* digit matrix *)
-    unfold digit_matrix. rewrite mapM_map. apply mapM_ext_in. intros se Hse.
+    unfold digit_matrix, m_mida_n_fill, m_mida_index. rewrite mapM_map. apply mapM_ext_in. intros se Hse.
     destruct (H se Hse) as [H0 [H1 Hn]]. destruct (Hhd se Hse) as [E Hlt].
     rewrite digit_row by (try lia; apply max_len_ge; exact Hse).
     rewrite digits_of_app, digits_of_zeros.
